@@ -19,7 +19,9 @@ let run_case_block id stackdesc (lines : string list) =
   let k = Fsdriver.parse_stack stackdesc in
   let items = List.map (fun l -> Fsdriver.parse_item (tokens l)) lines in
   let out = run_case k items in
-  List.iteri (fun i t -> Printf.printf "M %s#%d %s\n" id i (Fsdriver.canon_tres t)) out
+  List.iteri (fun i t -> Printf.printf "M %s#%d %s\n" id i (Fsdriver.canon_tres t)) out;
+  if Sys.getenv_opt "VERIF_DIGEST" <> None then
+    Printf.printf "D %s %s\n" id (Fsdriver.n_to_string (case_digest k items))
 
 (* "fcase <id> <content hex> <handles: w|r|wc|rc,...>" ... op lines ("." "-" op) ... "end":
    one in-memory file with k handles; prints the Go-level model (M) and the byte-array spec (S) *)
@@ -34,7 +36,9 @@ let run_fcase id content hspec (lines : string list) =
   List.iteri (fun i (o, r) ->
       Printf.printf "M %s#%d %s\n" id i (Fsdriver.canon_res r);
       Printf.printf "M %s#%d/p %s\n" id i (Fsdriver.canon_pres (proj o r))) (List.combine ops outs);
-  List.iteri (fun i p -> Printf.printf "S %s#%d/p %s\n" id i (Fsdriver.canon_pres p)) souts
+  List.iteri (fun i p -> Printf.printf "S %s#%d/p %s\n" id i (Fsdriver.canon_pres p)) souts;
+  if Sys.getenv_opt "VERIF_DIGEST" <> None then
+    Printf.printf "D %s %s\n" id (Fsdriver.n_to_string (fcase_digest c spec ops))
 
 let () =
   Registry.register_line "contains" run_contains;
